@@ -207,11 +207,11 @@ func liveHeap() uint64 {
 	return ms.HeapAlloc
 }
 
-const c20Allowance = 24 << 20 // codec windows, pools, bufio and the harness's own constant state
+const c20Allowance = 32 << 20 // codec windows, pools, bufio and the harness's own constant state
 
 func checkC20Sequential(ctx *core.Ctx, rep *core.Report, comp string, dir string) {
 	// a file of ~96 MiB (thorough: ~256 MiB) in chunks of ~256 KiB, on disk so the source is not in the heap
-	total := ctx.Pick(96<<20, 256<<20)
+	total := ctx.Pick(128<<20, 256<<20)
 	payload := 16 << 10
 	perChunk := 16
 	n := total / payload
@@ -529,9 +529,9 @@ func checkC20Attachments(ctx *core.Ctx, rep *core.Report) {
 
 func RunC20(ctx *core.Ctx, rep *core.Report) {
 	rep.Rule = "(1) files of 10..100 (thorough 10..1000) chunks written by the real Writer (none/zstd/lz4, message indexes on/off) with timestamps arranged so that consecutive chunk time ranges overlap 1..8 deep; the true depth d (max number of chunk intervals containing a common point) is re-measured by the reference decoder. Each is read through the index in file, log-time and reverse order and with topic/time filters, and after EVERY NextInto the verif hook is sampled: chunk slots allocated <= d (<= 1 in file order), slot buffer bytes <= slots x 2 x largest uncompressed chunk, compressed-record buffer <= 1.2 x largest chunk record. " +
-		"(2) a 96 MiB (thorough 256 MiB) file of 256 KiB chunks per compression is written to disk and read back by the lexer (validation off/on), the scan iterator and the index-based iterator; live heap after forced GC, sampled during the read (and during the write), must stay below 4 chunks + 24 MiB - the file is 4-10 times larger than that bound; the validating lexer's chunk buffer <= 2 x largest chunk. " +
+		"(2) a 128 MiB (thorough 256 MiB) file of 256 KiB chunks per compression is written to disk and read back by the lexer (validation off/on), the scan iterator and the index-based iterator; live heap after forced GC, sampled during the read (and during the write), must stay below 4 chunks + 32 MiB - the file is 4-8 times larger than that bound; the validating lexer's chunk buffer <= 2 x largest chunk. " +
 		"(3) attachments of 1 KiB..16 MiB (thorough ..256 MiB) produced by a generator that never holds the data: TotalAlloc delta across WriteAttachment (chunked and unchunked writer, counting sink) and across the lexer's handling of the record (callback draining to io.Discard and checking the CRC; and the no-callback skip path on a non-seekable source) <= 4 MiB. distinct_nontrivial counts distinct files / (compression, reader) pairs / attachment sizes measured."
-	rep.Assumptions = []string{"heap and TotalAlloc measurements are taken while no other goroutine of the harness is running", "the 24 MiB allowance covers the codecs' window and pool buffers; an honest reader measures well below the bound and a reader retaining the file would measure several times above it"}
+	rep.Assumptions = []string{"heap and TotalAlloc measurements are taken while no other goroutine of the harness is running", "the 32 MiB allowance covers the codecs' window and pool buffers; an honest reader measures well below the bound and a reader retaining the file would measure several times above it"}
 	n := ctx.Pick(60, 1500)
 	core.Parallel(ctx, rep, n, func(i int) { checkC20Indexed(ctx, i, rep) })
 	// the allocation-based stages run alone
